@@ -42,6 +42,9 @@ CLAIMED = {
     "C29": ("Coq proof (merged rename list = priority lookup local > per-Einsum top-level > default; expected_count mismatch rejected) + differential correspondence",
             "C29_resolve / C29_value / C29_expected_count for all rename tables; C29_unrepaired_refuted records the defect; the real Spec evaluation is run on random rename tables in all three places (default entry first or last) and compared with the model and oracle.",
             "Coq kernel; tensor renames with named-set sources only; rank-variable renames and rename-to-rename references outside the model"),
+    "C23": ("Coq proof (print-then-parse round trip for every well-formed Einsum and every whitespace placement; rejection lemmas for each malformed class) + differential correspondence on generated and malformed strings",
+            "C23_roundtrip: any string whose whitespace-stripped form is the concise rendering of a well-formed Einsum (any number of inputs and rank entries, shorthand and 'Rank: expression' entries, any non-word separators) parses to exactly its verbose form; C23_reject_* cover '=' count, empty projection/entry, upper-case shorthand, lower-case key, two colons, duplicate ranks. The real _parse_einsum_string / Einsum construction (concise entry with extra attributes vs verbose form) are compared with the vm_compute-evaluated model on random and malformed strings; every generated valid case is checked inside Coq to satisfy the theorem's hypotheses.",
+            "Coq kernel; Python's re engine replaced by explicit scanners (tied by correspondence); attribute merge and pydantic construction correspondence-only; ASCII"),
 }
 
 PENDING_REASON = "check not built yet in this round (planned, see DESIGN.md section 6); not claimed until its proof and correspondence exist"
